@@ -66,7 +66,8 @@ def parse_harness(out):
                 k, v = kv.split('=')
                 cur[k] = v
             for k in ('kind', 'sys', 'nw', 'allowInterp', 'everyStep', 'limit', 'projInterp'): cur[k] = int(cur[k])
-            for k in ('final', 'tStart', 'acc'): cur[k] = fx(cur[k])
+            for k in ('final', 'tStart', 'acc', 'ctol'):
+                if k in cur: cur[k] = fx(cur[k])
             scripts.append(cur)
         elif tk[0] == 'INITFAIL': cur['initfail'] = True
         elif tk[0] == 'CALL':
@@ -76,7 +77,8 @@ def parse_harness(out):
             call['recs'].append((tk[1], [fx(x) for x in tk[2:]]))
         elif tk[0] == 'RET':
             call['ret'] = {'status': tk[1], 't': fx(tk[2]), 'adv': fx(tk[3]), 'over': int(tk[4]), 'w0': fx(tk[5]), 'w1': fx(tk[6]),
-                           'qerr': fx(tk[7]), 'uerr': fx(tk[8]), 'tol': fx(tk[9]), 'interp': int(tk[10])}
+                           'qerr': fx(tk[7]), 'uerr': fx(tk[8]), 'tol': fx(tk[9]), 'interp': int(tk[10]),
+                           'aqerr': fx(tk[11]) if len(tk) > 12 else 0.0, 'auerr': fx(tk[12]) if len(tk) > 12 else 0.0}
         elif tk[0] == 'THROW': call['throw'] = tk[1]
         elif tk[0] == 'REINIT':
             cur['ev'].append({'type': 'reinit', 'low': int(tk[1]), 'term': int(tk[2])})
@@ -174,7 +176,7 @@ def replay_abstract(sc, drv, percall=None):
             first = False
         lines.append('P'); expect.append(('pre', e, ent))
         for v in rec_of(e, 'C19.step'):
-            lines.append('O %s %d %s %s %d' % (hx(v[7]), int(v[4]), hx(v[5]), hx(v[6]), proj_flag(e, v[3])))
+            lines.append('O %s %d %s %s %d %s' % (hx(v[7]), int(v[4]), hx(v[5]), hx(v[6]), proj_flag(e, v[3]), hx(v[3])))
         lines.append('R %s %s' % (hx(e['report']), hx(e['sched']))); expect.append(('ret', e, None))
         if e['throw'] and e['throw'] != 'refused': break
     rc, out, err = sh([drv], input='\n'.join(lines) + '\n', timeout=300)
